@@ -168,6 +168,12 @@ def timeline(case, obs):
     tick = cfg["tick_us"] * 1000
     recv = {(r[0], r[1]): r[2] for r in obs["recv"]}
     tl = []
+    views = {}
+    per_step = {}
+    for l in obs.get("links", []):
+        j = per_step.get(l[0], 0)
+        per_step[l[0]] = j + 1
+        views[(l[0], j)] = l[2]
     for k, st in enumerate(case["steps"]):
         for act in st["ctl"]:
             if act[0] in LINK_CALLS:
@@ -180,6 +186,8 @@ def timeline(case, obs):
                 tl.append(("lat", "set_max", None, None, act[1] * MS))
             elif act[0] in ("deliver", "deliver_all"):
                 tl.append(("manual", act[0], act[1], act[2], act[3] if len(act) > 3 else None, k * tick))
+            elif act[0] == "links":
+                tl.append(("view", views.get((k, len([x for x in tl if x[0] == "view" and x[2] == k]))), k, k * tick))
         order, groups = split_decisions(obs["decisions"][k]) if k < len(obs.get("decisions", [])) else (None, [])
         order = order if order is not None else cfg.get("reg_order", list(range(n)))
         gi = 0
@@ -330,9 +338,11 @@ def gen_hold_script(rng, nhosts=None):
         if held and rng.random() < 0.5:
             a, b = rng.choice(sorted(held))
             if rng.random() < 0.25:
+                ctl.append(["links"])
                 ctl.append(["deliver_all", a, b])
             else:
                 for _ in range(rng.randrange(1, 3)):
+                    ctl.append(["links"])
                     ctl.append(["deliver", a, b, rng.randrange(0, 5)])
             ctl.append(["links"])
         rand_sends(rng, n, ids, hosts, [0, 1, 2, 2, 3])
